@@ -196,19 +196,30 @@ _T3 = (4, 1, 7, 3, 5, 0)
 _T1 = (4, 1, 7, 3, 5, 0, 2, 6, 8, 9)
 
 
+def _two(fl, ah, pending, n, t0, k0, b, k1, form):
+    spec = [(t0, k0), (_T1[b], k1)][:n]
+    return _dispatch_polling(fl, bool(ah), pending, spec, form)
+
+
 @cond(quick=dict(timeout=170, T=6, K=0, parts=dict(FL=[0, 1], AH=[0, 1])),
-      thorough=dict(timeout=1200, T=10, K=8, parts=dict(FL=[0, 1], AH=[0, 1], PEND=[0, 1])))
+      thorough=dict(timeout=1200, T=10, K=10, parts=dict(FL=[0, 1], AH=[0, 1], PEND=[0, 1])))
 def polling_two(fl: int, ah: int, pending: bool, n: int, t0: int, k0: int, b: int, k1: int, form: bool) -> str:
     """
     pre: fl == P.FL and ah == P.AH and 0 <= n <= 2 and 0 <= t0 <= 9 and 0 <= b < P.T and 0 <= k1 <= P.K
     pre: ((t0 == 4 and 0 <= k0 <= len(PAY)) or (t0 != 4 and k0 == 0)) and (_T1[b] == 4 or k1 == 0)
+    pre: (n >= 2 or (b == 0 and k1 == 0)) and (n >= 1 or (t0 == 0 and k0 == 0))
     pre: not hasattr(P, 'PEND') or pending == bool(P.PEND)
     post: _ == ''
     """
-    # first packet: any type 0-9 with any table payload (text, JSON, integer-looking, empty, binary); second packet
-    # from the type table (quick: MESSAGE, CLOSE, 7, PONG, UPGRADE, OPEN; thorough: all ten types with payloads)
-    spec = [(t0, k0), (_T1[b], k1)][:n]
-    return verdict(_dispatch_polling(fl, bool(ah), pending, spec, form))
+    # first packet: any type 0-9 with any table payload (text, JSON, integer-looking, empty, binary, text with spaces);
+    # second packet from the type table (quick: MESSAGE, CLOSE, 7, PONG, UPGRADE, OPEN; thorough: all ten types with payloads);
+    # plain body or its form-encoded (JSONP) variant
+    return verdict(untraced(_two, fl, ah, pending, n, t0, k0, b, k1, form))
+
+
+def _three(fl, ah, pending, a, b, c, k):
+    spec = [(_T3[x], k if _T3[x] == 4 else 0) for x in (a, b, c)]
+    return _dispatch_polling(fl, bool(ah), pending, spec)
 
 
 @cond(quick=dict(timeout=170, T=4, K=0, parts=dict(FL=[0, 1], AH=[0, 1])),
@@ -220,8 +231,7 @@ def polling_three(fl: int, ah: int, pending: bool, a: int, b: int, c: int, k: in
     post: _ == ''
     """
     # every position of a CLOSE / undefined-type / PONG / UPGRADE packet inside a 3-packet body
-    spec = [(_T3[x], k if _T3[x] == 4 else 0) for x in (a, b, c)]
-    return verdict(_dispatch_polling(fl, bool(ah), pending, spec))
+    return verdict(untraced(_three, fl, ah, pending, a, b, c, k))
 
 
 def _dispatch_ws(fl, ah, upgraded, frames_spec):
